@@ -353,7 +353,12 @@ impl Gen {
                     0 | 1 => (0, Op::Clear),
                     2 => (0, Op::Drain { take: self.rng.below(len as u64 + 1) as usize, forget: false }),
                     3 => (0, Op::Reserve { n: nb }),
-                    4 => (0, Op::TryReserve { n: self.boundary(w, 0) }),
+                    4 => {
+                        // also the window in which the layout is valid but the allocator refuses it (the harness allocator
+                        // caps a table at 1 GiB): an error, not a panic, and nothing changes
+                        let n = if self.rng.chance(1, 4) { *self.rng.pick(&[1usize << 27, (1 << 27) + 13, 1 << 30, 1 << 40, 1 << 57]) } else { self.boundary(w, 0) };
+                        (0, Op::TryReserve { n })
+                    }
                     5 => (0, Op::ShrinkToFit),
                     6 => (0, Op::Shrink { n: self.boundary(w, 0) }),
                     7 => (1, Op::Clone { src: 0 }),
